@@ -1,73 +1,52 @@
 package sim
 
-import (
-	"os"
-	"path/filepath"
-)
-
-// CacheModel is the reference model of gengo.sum (C08): for each package the
-// content of its directory that a line of the current gengo.sum vouches for.
-// It has no hashing logic of its own beyond remembering the hash string the
-// driver computed when the entry was recorded.
+// CacheModel is the reference model of gengo.sum (C08). The driver hashes every
+// local package directory itself before each run and remembers which content
+// (the files directly in the directory) each hash stood for. A line
+// "<path> <hash>" of gengo.sum therefore vouches for a known content, and a
+// package may be skipped only if some line for it vouches for exactly the
+// content the directory has now. The model never trusts what gengo computed.
 type CacheModel struct {
-	Rec     map[string]map[string]string // package path -> files directly in its directory, as recorded
-	RecHash map[string]string            // package path -> driver's directory hash at that time ("" if unhashable)
+	Known map[string]map[string]map[string]string // package path -> hash -> files directly in the directory
 }
 
 func NewCacheModel() *CacheModel {
-	return &CacheModel{Rec: map[string]map[string]string{}, RecHash: map[string]string{}}
+	return &CacheModel{Known: map[string]map[string]map[string]string{}}
 }
 
 func (c *CacheModel) Clone() *CacheModel {
 	n := NewCacheModel()
-	for k, v := range c.Rec {
-		cp := map[string]string{}
-		for a, b := range v {
-			cp[a] = b
+	for p, hs := range c.Known {
+		n.Known[p] = map[string]map[string]string{}
+		for h, files := range hs {
+			n.Known[p][h] = files // contents are never mutated
 		}
-		n.Rec[k] = cp
-	}
-	for k, v := range c.RecHash {
-		n.RecHash[k] = v
 	}
 	return n
 }
 
-// AfterExternal re-validates the entries against the gengo.sum now on disk: an
-// entry survives only while a line "<path> <recorded hash>" is still there.
-// This one rule covers deletion, every kind of corruption, and files left
-// behind by failed or killed runs.
-func (c *CacheModel) AfterExternal(root string) {
-	data, err := os.ReadFile(filepath.Join(root, "gengo.sum"))
-	if err != nil {
-		c.Rec = map[string]map[string]string{}
-		c.RecHash = map[string]string{}
+// Observe records that the directory of package p hashed to h while it held content.
+func (c *CacheModel) Observe(p, h string, content map[string]string) {
+	if h == "" {
 		return
 	}
-	lines := ParseSumLines(data)
-	for p, h := range c.RecHash {
-		ok := false
-		if h != "" {
-			for _, lh := range lines[p] {
-				if lh == h {
-					ok = true
-				}
-			}
-		}
-		if !ok {
-			delete(c.Rec, p)
-			delete(c.RecHash, p)
-		}
+	if c.Known[p] == nil {
+		c.Known[p] = map[string]map[string]string{}
 	}
+	c.Known[p][h] = content
 }
 
-// Commit records a successful All run: gengo.sum was rewritten wholesale for
-// the local packages of that run, from the state at load time.
-func (c *CacheModel) Commit(local []string, content map[string]map[string]string, hload map[string]string) {
-	c.Rec = map[string]map[string]string{}
-	c.RecHash = map[string]string{}
-	for _, p := range local {
-		c.Rec[p] = content[p]
-		c.RecHash[p] = hload[p]
+// Vouches reports whether one of the hashes recorded for p stands for the
+// content the directory has now.
+func (c *CacheModel) Vouches(p string, lineHashes []string, now map[string]string) bool {
+	for _, h := range lineHashes {
+		if files, ok := c.Known[p][h]; ok && sameFiles(files, now) {
+			return true
+		}
 	}
+	return false
 }
+
+// AfterExternal is kept for call sites; the model needs no update when files
+// change, because it is keyed by what the driver hashed, not by history.
+func (c *CacheModel) AfterExternal(root string) {}
